@@ -33,13 +33,28 @@ class concurrent_hash_map {
     bool empty() const { return p == nullptr; }
     void release() { p = nullptr; }
   };
-  using const_accessor = accessor;
+  class const_accessor {
+    const value_type* p = nullptr;
+    friend class concurrent_hash_map;
+
+   public:
+    const value_type* operator->() const { return p; }
+    const value_type& operator*() const { return *p; }
+    bool empty() const { return p == nullptr; }
+    void release() { p = nullptr; }
+  };
   struct range_type {
     M* m;
     iterator begin() const { return m->begin(); }
     iterator end() const { return m->end(); }
   };
   bool find(accessor& a, const K& k) {
+    auto it = m.find(k);
+    if (it == m.end()) { a.p = nullptr; return false; }
+    a.p = &*it;
+    return true;
+  }
+  bool find(const_accessor& a, const K& k) const {
     auto it = m.find(k);
     if (it == m.end()) { a.p = nullptr; return false; }
     a.p = &*it;
